@@ -436,3 +436,24 @@ Corollary entities_retrievable fs f k : redef_report fs = [] -> Forall ops_ok (a
 Proof.
   intros Hok Hops Hf Hk. destruct (every_entity_entered f k Hk) as [p Hp]. exists p. apply entity_found_by_its_scoped_identifier; assumption.
 Qed.
+
+(* ---------- with the primitive types in the table ---------- *)
+(* what the files enter comes after the primitives' entries, so it wins over them; the order of the files does not matter here either,
+   and a key that no file uses still leads to the primitive of that name *)
+Theorem lookup_with_primitives_order_independent prims fs fs' k :
+  redef_report fs = [] -> Permutation fs fs' -> sc_lookup k (sc_table_with prims fs) = sc_lookup k (sc_table_with prims fs').
+Proof. intros Hok HP. unfold sc_table_with. rewrite !lookup_app. rewrite (lookup_order_independent fs fs' k Hok HP). reflexivity. Qed.
+Theorem primitive_found_unless_redeclared prims fs p : NoDup prims -> In p prims -> sc_lookup [p] (sc_table fs) = None ->
+  sc_lookup [p] (sc_table_with prims fs) = Some (ScPrimitive p).
+Proof.
+  intros ND Hin Hnone. unfold sc_table_with. rewrite lookup_app, Hnone. apply lookup_unique.
+  - apply in_map_iff. exists p. split; [reflexivity|exact Hin].
+  - intros w Hw. apply in_map_iff in Hw as (q & E & _). inversion E; subst. reflexivity.
+Qed.
+(* `module \int32` takes the place of the primitive int32 in the table, in every order of the files (name 100 stands for int32) *)
+Example module_named_like_a_primitive :
+  let m := {| sf_id := 0; sf_module := Some [100]; sf_defs := [] |} in
+  let u := {| sf_id := 1; sf_module := Some [1]; sf_defs := [ScStruct 2 [3]] |} in
+  redef_report [m; u] = [] /\ sc_lookup [100] (sc_table_with [100; 101] [m; u]) = Some (ScModule [100]) /\
+  sc_lookup [100] (sc_table_with [100; 101] [u; m]) = Some (ScModule [100]) /\ sc_lookup [101] (sc_table_with [100; 101] [u; m]) = Some (ScPrimitive 101).
+Proof. repeat split; vm_compute; reflexivity. Qed.
